@@ -38,7 +38,7 @@ MANIFEST = {
     "rejection class (overflow vs mismatch), -9223372036854775808 is accepted, and the emitted ConstInt payload decodes "
     "(two's complement / unsigned) to exactly v on the accepted range. The hand-written model is tied to /repo on every run: "
     "every case goes through the real check() and the real lowering and the payloads are read back from the Hugr "
-    "(quick ~450 programs, thorough ~6000).",
+    "(quick ~450 programs, thorough ~20000).",
     "level_note": "Trusted: Lean kernel + standard axioms; the reading of ConstInt payloads by the runtime (assumed); the "
     "correspondence is sampling (all boundary values always included). Deeper negations (--n) are expressions, not literals: "
     "only the innermost minus folds, outer ones are ineg at run time (stated as an example in Props/C17).",
@@ -311,7 +311,7 @@ def _gen_cases(ctx):
             if not ctx.quick or abs(abs(v) - P63) <= 1 or abs(abs(v) - P64) <= 1 or abs(v) <= 1:
                 cases.append({"form": "comptime", "kind": k, "v": v, "style": "plain"})
     cases.append({"form": "lit", "kind": "nat", "negs": 1, "n": 0, "pos": "ret"})
-    n_rand = ctx.n(330, 5600)
+    n_rand = ctx.n(330, 19500)
     for _ in range(n_rand):
         r = rng.random()
         if r < 0.36:
